@@ -98,3 +98,6 @@ Fixpoint last_auto (fs : list row) (a : counters) : counters :=
 
 Definition place (p : row * str) : row := set_bin (set_id (snd p) (fst p)).
 
+
+(* every stored row has both coordinates (no '.' start or end) *)
+Definition coords_ok (st : ist) : Prop := forall r, In r (s_rows st) -> r_start r <> None /\ r_end r <> None.
